@@ -11,6 +11,56 @@ Proof. unfold upd. intros H. apply Nat.eqb_neq in H. now rewrite H. Qed.
 Lemma in_snoc {A} (x y : A) l : In x (l ++ [y]) <-> In x l \/ x = y.
 Proof. rewrite in_app_iff. simpl. intuition. Qed.
 
+Lemma inflight_infl s : inflight s = length (infl s).
+Proof. unfold inflight, infl, inflP. rewrite app_length, map_length. lia. Qed.
+Lemma slots_of_app a b : slots_of (a ++ b) = slots_of a ++ slots_of b.
+Proof. unfold slots_of. now rewrite flat_map_app. Qed.
+Lemma slots_of_length pr : length (slots_of pr) <= length pr.
+Proof.
+  induction pr as [|[o [sl|]] pr IH]; simpl; lia.
+Qed.
+Lemma remove_nth_count {A} (f : A -> nat) k (l : list A) d x :
+  k < length l ->
+  count x (map f l) = count x (map f (remove_nth k l)) + (if Nat.eqb x (f (nth k l d)) then 1 else 0).
+Proof.
+  revert k. induction l as [|a l IH]; intros k Hk; [simpl in Hk; lia|].
+  destruct k; simpl.
+  - lia.
+  - simpl in Hk. rewrite (IH k) by lia. lia.
+Qed.
+Lemma remove_nth_In {A} k (l : list A) y : In y (remove_nth k l) -> In y l.
+Proof.
+  revert k. induction l as [|a l IH]; intros k H; [destruct k; exact H|].
+  destruct k; simpl in *; [auto|]. destruct H as [H|H]; [auto | right; eauto].
+Qed.
+Lemma remove_nth_length {A} k (l : list A) : k < length l -> S (length (remove_nth k l)) = length l.
+Proof.
+  revert k. induction l as [|a l IH]; intros k Hk; [simpl in Hk; lia|].
+  destruct k; simpl; [reflexivity|]. simpl in Hk. rewrite IH by lia. reflexivity.
+Qed.
+Lemma remove_nth_slots k (l : list (nat * option nat)) d :
+  k < length l ->
+  Permutation (slots_of l) (match snd (nth k l d) with Some sl => [sl] | None => [] end ++ slots_of (remove_nth k l)).
+Proof.
+  revert k. induction l as [|a l IH]; intros k Hk; [simpl in Hk; lia|].
+  destruct k; cbn [nth remove_nth].
+  - change (slots_of (a :: l)) with (match snd a with Some sl => [sl] | None => [] end ++ slots_of l).
+    apply Permutation_refl.
+  - simpl in Hk.
+    change (slots_of (a :: l)) with (match snd a with Some sl => [sl] | None => [] end ++ slots_of l).
+    change (slots_of (a :: remove_nth k l)) with (match snd a with Some sl => [sl] | None => [] end ++ slots_of (remove_nth k l)).
+    eapply Permutation_trans; [apply Permutation_app_head, (IH k); lia|].
+    rewrite !app_assoc. apply Permutation_app_tail, Permutation_app_comm.
+Qed.
+Lemma map_fst_In_remove k (l : list (nat * option nat)) d x :
+  k < length l -> In x (map fst l) -> x = fst (nth k l d) \/ In x (map fst (remove_nth k l)).
+Proof.
+  intros Hk Hx. apply In_count_pos in Hx. rewrite (remove_nth_count fst k l d x Hk) in Hx.
+  destruct (Nat.eqb x (fst (nth k l d))) eqn:E.
+  - left. now apply Nat.eqb_eq.
+  - right. apply count_In. lia.
+Qed.
+
 Section Steps.
   Variable p : plan.
   Variable jobs : nat.
@@ -136,6 +186,11 @@ Section Steps.
              ++ exfalso. apply Hnc. apply (t_done _ _ _ _ _ _ _ Ht). auto.
         * rewrite upd_other by assumption. rewrite (t_skip _ _ _ _ _ _ _ Ht x Hx). split; [intros H; right; exact H|].
           intros [H|H]; [|assumption]. exfalso. apply Hne. apply Hev_op. left. exact H.
+      + intros x Hx. apply in_snoc in Hx as [Hx| ->].
+        * destruct (t_compl _ _ _ _ _ _ _ Ht x Hx) as [H|[H|(rc & H)]];
+            [left | right; left | right; right; exists rc]; right; exact H.
+        * destruct Hev as [[-> _]|[[-> _]|(rc & -> & _)]];
+            [left | right; left | right; right; exists rc]; left; reflexivity.
   Qed.
 
   (* ---------- moving operations between the lists ---------- *)
@@ -165,8 +220,6 @@ Section Steps.
   Qed.
 
   (* ---------- the gate and the dequeue ---------- *)
-  Lemma inflight_infl s : inflight s = length (infl s).
-  Proof. unfold inflight, infl, inflP. rewrite app_length, map_length. lia. Qed.
 
   Lemma gate_dequeue s :
     gate_open jobs s = true ->
@@ -265,12 +318,6 @@ Section Steps.
     destruct wf as (H & _). specialize (H o Hn d Hin). fold n in Hn. lia.
   Qed.
 
-  Lemma slots_of_app a b : slots_of (a ++ b) = slots_of a ++ slots_of b.
-  Proof. unfold slots_of. now rewrite flat_map_app. Qed.
-  Lemma slots_of_length pr : length (slots_of pr) <= length pr.
-  Proof.
-    induction pr as [|[o [sl|]] pr IH]; simpl; lia.
-  Qed.
 
   Lemma avail_nonempty s0 :
     MInv s0 -> (infl s0 = [] \/ length (infl s0) < jobs) -> avail s0 <> [].
@@ -355,6 +402,8 @@ Section Steps.
       + intros x rc [H|H]; [discriminate|]. now apply (t_fin_state _ _ _ _ _ _ _ Ht).
       + intros x Hx. rewrite (t_skip _ _ _ _ _ _ _ Ht x Hx). split; [intros H; right; exact H|].
         intros [H|H]; [discriminate | exact H].
+      + intros x Hx. destruct (t_compl _ _ _ _ _ _ _ Ht x Hx) as [H|[H|(rc & H)]];
+          [left | right; left | right; right; exists rc]; right; exact H.
     - intros Hst Hsp e [<-|He]; [exact I|]. now apply Hnn.
   Qed.
 
@@ -408,6 +457,8 @@ Section Steps.
       + intros x rc [H|H]; [discriminate|]. now apply (t_fin_state _ _ _ _ _ _ _ Ht).
       + intros x Hx. rewrite (t_skip _ _ _ _ _ _ _ Ht x Hx). split; [intros H; right; exact H|].
         intros [H|H]; [discriminate | exact H].
+      + intros x Hx. destruct (t_compl _ _ _ _ _ _ _ Ht x Hx) as [H|[H|(rc & H)]];
+          [left | right; left | right; right; exists rc]; right; exact H.
     - intros Hst Hsp e [<-|He]; [exact I|]. now apply Hnn.
   Qed.
 
@@ -484,47 +535,6 @@ Section Steps.
   Qed.
 
   (* ---------- removing the k-th process ---------- *)
-  Lemma remove_nth_count {A} (f : A -> nat) k (l : list A) d x :
-    k < length l ->
-    count x (map f l) = count x (map f (remove_nth k l)) + (if Nat.eqb x (f (nth k l d)) then 1 else 0).
-  Proof.
-    revert k. induction l as [|a l IH]; intros k Hk; [simpl in Hk; lia|].
-    destruct k; simpl.
-    - lia.
-    - simpl in Hk. rewrite (IH k) by lia. lia.
-  Qed.
-  Lemma remove_nth_In {A} k (l : list A) y : In y (remove_nth k l) -> In y l.
-  Proof.
-    revert k. induction l as [|a l IH]; intros k H; [destruct k; exact H|].
-    destruct k; simpl in *; [auto|]. destruct H as [H|H]; [auto | right; eauto].
-  Qed.
-  Lemma remove_nth_length {A} k (l : list A) : k < length l -> S (length (remove_nth k l)) = length l.
-  Proof.
-    revert k. induction l as [|a l IH]; intros k Hk; [simpl in Hk; lia|].
-    destruct k; simpl; [reflexivity|]. simpl in Hk. rewrite IH by lia. reflexivity.
-  Qed.
-  Lemma remove_nth_slots k (l : list (nat * option nat)) d :
-    k < length l ->
-    Permutation (slots_of l) (match snd (nth k l d) with Some sl => [sl] | None => [] end ++ slots_of (remove_nth k l)).
-  Proof.
-    revert k. induction l as [|a l IH]; intros k Hk; [simpl in Hk; lia|].
-    destruct k; cbn [nth remove_nth].
-    - change (slots_of (a :: l)) with (match snd a with Some sl => [sl] | None => [] end ++ slots_of l).
-      apply Permutation_refl.
-    - simpl in Hk.
-      change (slots_of (a :: l)) with (match snd a with Some sl => [sl] | None => [] end ++ slots_of l).
-      change (slots_of (a :: remove_nth k l)) with (match snd a with Some sl => [sl] | None => [] end ++ slots_of (remove_nth k l)).
-      eapply Permutation_trans; [apply Permutation_app_head, (IH k); lia|].
-      rewrite !app_assoc. apply Permutation_app_tail, Permutation_app_comm.
-  Qed.
-  Lemma map_fst_In_remove k (l : list (nat * option nat)) d x :
-    k < length l -> In x (map fst l) -> x = fst (nth k l d) \/ In x (map fst (remove_nth k l)).
-  Proof.
-    intros Hk Hx. apply In_count_pos in Hx. rewrite (remove_nth_count fst k l d x Hk) in Hx.
-    destruct (Nat.eqb x (fst (nth k l d))) eqn:E.
-    - left. now apply Nat.eqb_eq.
-    - right. apply count_In. lia.
-  Qed.
 
   Lemma NInv_tail s1 e tr :
     trace s1 = e :: tr -> (stop = true -> stopped s1 = false -> forall e', In e' tr -> match e' with ELaunchFail _ => False | EFinish _ rc => rc = 0%N | _ => True end) ->
@@ -752,6 +762,7 @@ Section Steps.
       + intros; discriminate.
       + intros o rc H. apply cached_only in H as (t & H). discriminate.
       + intros o Ho. split; [discriminate|]. intros H. apply cached_only in H as (t & H). discriminate.
+      + intros o [].
     - unfold ExecInv.NInv. rewrite H10, H11. intros _ _ e He. apply cached_only in He as (t & ->). exact I.
   Qed.
 
